@@ -335,3 +335,237 @@ Section SortProofs.
   Qed.
 End SortProofs.
 Arguments sorted {A}.
+
+(* ================================================================== faces and the tie-break: a proper face is before its cofaces *)
+Lemma subseq_refl : forall s, subseq s s.
+Proof. induction s; constructor; assumption. Qed.
+
+Lemma subseq_nil_l : forall s, subseq [] s.
+Proof. induction s; constructor; assumption. Qed.
+
+Lemma subseq_trans : forall a b c, subseq a b -> subseq b c -> subseq a c.
+Proof.
+  intros a b c H1 H2. revert a H1. induction H2 as [|x t s H IH|x t s H IH]; intros a H1.
+  - exact H1.
+  - inversion H1; subst; [constructor; apply IH; assumption | apply sub_skip; apply IH; assumption].
+  - apply sub_skip. apply IH. exact H1.
+Qed.
+
+Lemma subseq_in : forall t s x, subseq t s -> In x t -> In x s.
+Proof. intros t s x H. induction H; intros I; [exact I | destruct I; [left; assumption | right; auto] | right; auto]. Qed.
+
+Lemma subseq_length : forall t s, subseq t s -> (length t <= length s)%nat.
+Proof. intros t s H. induction H; cbn [length]; lia. Qed.
+
+Lemma subseq_same_length : forall t s, subseq t s -> length t = length s -> t = s.
+Proof.
+  intros t s H. induction H as [|x t s H IH|x t s H IH]; intros L; [reflexivity | f_equal; apply IH; cbn in L; lia|].
+  apply subseq_length in H. cbn in L. lia.
+Qed.
+
+Lemma subseq_app : forall a b c d, subseq a b -> subseq c d -> subseq (a ++ c) (b ++ d).
+Proof. intros a b c d H. induction H; intros H2; cbn [app]; [exact H2 | constructor; auto | apply sub_skip; auto]. Qed.
+
+Lemma subseq_rev : forall t s, subseq t s -> subseq (rev t) (rev s).
+Proof.
+  intros t s H. induction H as [|x t s H IH|x t s H IH]; cbn [rev].
+  - constructor.
+  - apply subseq_app; [exact IH | apply subseq_refl].
+  - rewrite <- (app_nil_r (rev t)). apply subseq_app; [exact IH | apply subseq_nil_l].
+Qed.
+
+Definition decr (s : list Z) : Prop := StronglySorted Z.gt s.
+
+Lemma incr_rev_decr : forall s, incr s -> decr (rev s).
+Proof.
+  unfold incr, decr. induction s as [|x s IH]; intros H; cbn [rev]; [constructor|].
+  inversion H as [|? ? S F]; subst. specialize (IH S).
+  assert (G : forall l, StronglySorted Z.gt l -> Forall (fun y => y > x)%Z l -> StronglySorted Z.gt (l ++ [x])).
+  { induction l as [|y l IHl]; intros Sl Fl; cbn [app]; [repeat constructor|].
+    inversion Sl; subst. inversion Fl; subst. constructor; [apply IHl; assumption|].
+    apply Forall_app. split; [assumption | repeat constructor; assumption]. }
+  apply G; [exact IH|]. rewrite Forall_forall in *. intros y Hy. apply in_rev in Hy. specialize (F y Hy). lia.
+Qed.
+
+(* on strictly decreasing lists a proper sub-sequence is lexicographically smaller *)
+Lemma subseq_lex_dec : forall t s, subseq t s -> decr s -> t <> s -> lex_dec t s = true.
+Proof.
+  intros t s H. induction H as [|x t s H IH|x t s H IH]; intros D N.
+  - congruence.
+  - cbn [lex_dec]. rewrite Z.eqb_refl. inversion D; subst. apply IH; [assumption | congruence].
+  - destruct t as [|y t]; [reflexivity|]. cbn [lex_dec].
+    inversion D as [|? ? D' F]; subst. rewrite Forall_forall in F.
+    assert (Iy : In y s) by (eapply subseq_in; [exact H | left; reflexivity]).
+    specialize (F y Iy). assert (Z.eqb y x = false) as -> by lia. lia.
+Qed.
+
+Lemma face_revlex : forall t s, incr s -> subseq t s -> t <> s -> revlex t s = true.
+Proof.
+  intros t s I H N. unfold revlex. apply subseq_lex_dec; [apply subseq_rev; exact H | apply incr_rev_decr; exact I|].
+  intros E. apply N. rewrite <- (rev_involutive t), <- (rev_involutive s), E. reflexivity.
+Qed.
+
+(* ================================================================== lookup / update *)
+Section Maps.
+  Variable V : Type.
+
+  Lemma lookup_in : forall (K : cplx V) s v, lookup K s = Some v -> In (s, v) K.
+  Proof.
+    induction K as [|[t w] K IH]; intros s v H; cbn [lookup] in H; [discriminate|].
+    destruct (simplex_eqb t s) eqn:E; [apply simplex_eqb_eq in E; inversion H; subst; left; reflexivity | right; auto].
+  Qed.
+
+  Lemma in_lookup : forall (K : cplx V) s v, NoDup (map fst K) -> In (s, v) K -> lookup K s = Some v.
+  Proof.
+    induction K as [|[t w] K IH]; intros s v N I; [destruct I|]. cbn [lookup]. cbn [map fst] in N. inversion N as [|? ? N1 N2]; subst.
+    destruct I as [I|I].
+    - inversion I; subst. rewrite simplex_eqb_refl. reflexivity.
+    - destruct (simplex_eqb t s) eqn:E; [|auto]. apply simplex_eqb_eq in E. subst. exfalso. apply N1.
+      apply in_map_iff. exists (s, v). auto.
+  Qed.
+
+  Lemma lookup_none : forall (K : cplx V) s, lookup K s = None <-> ~ In s (map fst K).
+  Proof.
+    induction K as [|[t w] K IH]; intros s; cbn [lookup map fst]; [split; auto|].
+    destruct (simplex_eqb t s) eqn:E.
+    - apply simplex_eqb_eq in E. subst. split; [discriminate | intros H; exfalso; apply H; left; reflexivity].
+    - rewrite IH. split; intros H; [intros [X|X]; [subst; rewrite simplex_eqb_refl in E; discriminate | auto] | intros X; apply H; right; exact X].
+  Qed.
+
+  Lemma lookup_some_key : forall (K : cplx V) s, In s (map fst K) -> exists v, lookup K s = Some v.
+  Proof.
+    intros K s H. destruct (lookup K s) eqn:E; [eauto|]. apply lookup_none in E. contradiction.
+  Qed.
+
+  Lemma lookup_key : forall (K : cplx V) s v, lookup K s = Some v -> In s (map fst K).
+  Proof. intros K s v H. apply lookup_in in H. apply in_map_iff. exists (s, v). auto. Qed.
+
+  Lemma update_keys : forall (K : cplx V) s v, map fst (update K s v) = map fst K.
+  Proof.
+    induction K as [|[t w] K IH]; intros s v; cbn [update map fst]; [reflexivity|].
+    destruct (simplex_eqb t s); cbn [map fst]; [reflexivity | rewrite IH; reflexivity].
+  Qed.
+
+  Lemma lookup_update_same : forall (K : cplx V) s v, In s (map fst K) -> lookup (update K s v) s = Some v.
+  Proof.
+    induction K as [|[t w] K IH]; intros s v H; [destruct H|]. cbn [update].
+    destruct (simplex_eqb t s) eqn:E; cbn [lookup]; rewrite E; [reflexivity|].
+    apply IH. destruct H as [H|H]; [cbn in H; subst; rewrite simplex_eqb_refl in E; discriminate | exact H].
+  Qed.
+
+  Lemma lookup_update_other : forall (K : cplx V) s v t, t <> s -> lookup (update K s v) t = lookup K t.
+  Proof.
+    induction K as [|[u w] K IH]; intros s v t N; cbn [update]; [reflexivity|].
+    destruct (simplex_eqb u s) eqn:E; cbn [lookup].
+    - apply simplex_eqb_eq in E. subst. rewrite (simplex_eqb_neq s t); [reflexivity | congruence].
+    - destruct (simplex_eqb u t); [reflexivity | apply IH; exact N].
+  Qed.
+End Maps.
+Arguments lookup_in {V}. Arguments in_lookup {V}. Arguments lookup_none {V}. Arguments lookup_some_key {V}.
+Arguments lookup_key {V}. Arguments update_keys {V}. Arguments lookup_update_same {V}. Arguments lookup_update_other {V}.
+
+(* ================================================================== the filtration range *)
+Section Range.
+  Variable V : Type.
+  Variable vlt : V -> V -> bool.
+  Variable vinf : V.
+  Hypothesis SW : StrictWeak vlt.
+
+  Definition kept (ign : bool) (K : cplx V) : cplx V := filter (fun p => negb (ign && veq vlt (snd p) vinf)) K.
+  (* a sorting routine: whatever it does (sequential, parallel, any schedule), it returns a sorted permutation *)
+  Definition sorts (sort : list (simplex * V) -> list (simplex * V)) : Prop :=
+    forall l, sorted (fle vlt) (sort l) /\ Permutation (sort l) l.
+
+  Lemma msort_sorts : sorts (msort (fle vlt)).
+  Proof.
+    intros l. split; [apply msort_sorted | apply msort_perm]; try apply (fle_total V vlt SW); apply (fle_trans V vlt SW).
+  Qed.
+  Lemma isort_sorts : sorts (isort (fle vlt)).
+  Proof. intros l. apply isort_ok; [apply (fle_total V vlt SW) | apply (fle_trans V vlt SW)]. Qed.
+
+  Lemma nodup_keys_filter : forall (K : cplx V) p, NoDup (map fst K) -> NoDup (map fst (filter p K)).
+  Proof.
+    induction K as [|a K IH]; intros p N; cbn [filter map]; [constructor|]. cbn [map] in N. inversion N as [|? ? N1 N2]; subst.
+    destruct (p a); [|auto]. cbn [map]. constructor; [|auto].
+    intros H. apply N1. apply in_map_iff in H. destruct H as (b & E & I). apply filter_In in I. apply in_map_iff. exists b. tauto.
+  Qed.
+
+  Lemma nodup_keys_eq : forall (l : cplx V) a b, NoDup (map fst l) -> In a l -> In b l -> fst a = fst b -> a = b.
+  Proof.
+    induction l as [|c l IH]; intros a b N Ia Ib E; [destruct Ia|]. cbn [map] in N. inversion N as [|? ? N1 N2]; subst.
+    destruct Ia as [Ia|Ia]; destruct Ib as [Ib|Ib]; subst.
+    - reflexivity.
+    - exfalso. apply N1. rewrite E. apply in_map. exact Ib.
+    - exfalso. apply N1. rewrite <- E. apply in_map. exact Ia.
+    - apply IH; assumption.
+  Qed.
+
+  (* DETERMINISM: the range is a function of the finite map alone.  Two complexes with the same (simplex,value) pairs in any
+     storage/insertion order, sorted by any two routines that sort, give the same list. *)
+  Theorem range_deterministic : forall sort1 sort2 ign (K1 K2 : cplx V),
+    sorts sort1 -> sorts sort2 -> NoDup (map fst K1) -> Permutation K1 K2 ->
+    initialize_filtration_with vlt vinf sort1 ign K1 = initialize_filtration_with vlt vinf sort2 ign K2.
+  Proof.
+    intros sort1 sort2 ign K1 K2 S1 S2 N P. unfold initialize_filtration_with. f_equal.
+    set (p := fun p : simplex * V => negb (ign && veq vlt (snd p) vinf)).
+    destruct (S1 (filter p K1)) as [A1 B1]. destruct (S2 (filter p K2)) as [A2 B2].
+    assert (PF : Permutation (filter p K1) (filter p K2)).
+    { clear - P. induction P; cbn [filter].
+      - constructor.
+      - destruct (p x); [apply perm_skip|]; assumption.
+      - destruct (p x); destruct (p y); try apply perm_swap; apply Permutation_refl.
+      - eapply Permutation_trans; eassumption. }
+    apply (sorted_perm_unique _ (fle vlt)); try assumption.
+    - intros a b Ia Ib L1 L2.
+      assert (E : fst a = fst b) by (eapply fle_antisym_keys; eassumption).
+      apply (nodup_keys_eq (filter p K1)); [apply nodup_keys_filter; exact N | | | exact E];
+        eapply Permutation_in; try apply B1; assumption.
+    - eapply Permutation_trans; [exact B1|]. eapply Permutation_trans; [exact PF|]. apply Permutation_sym. exact B2.
+  Qed.
+
+  (* every non-ignored simplex exactly once *)
+  Theorem range_lists_each_once : forall sort ign (K : cplx V), sorts sort -> NoDup (map fst K) ->
+    Permutation (initialize_filtration_with vlt vinf sort ign K) (map fst (kept ign K)) /\
+    NoDup (initialize_filtration_with vlt vinf sort ign K).
+  Proof.
+    intros sort ign K S N. unfold initialize_filtration_with, kept.
+    destruct (S (filter (fun p => negb (ign && veq vlt (snd p) vinf)) K)) as [A B].
+    assert (P : Permutation (map fst (sort (filter (fun p => negb (ign && veq vlt (snd p) vinf)) K)))
+                            (map fst (filter (fun p => negb (ign && veq vlt (snd p) vinf)) K))) by (apply Permutation_map; exact B).
+    split; [exact P|]. eapply Permutation_NoDup; [apply Permutation_sym; exact P|]. apply nodup_keys_filter. exact N.
+  Qed.
+
+  Lemma kept_all : forall K, kept false K = K.
+  Proof. intros K. unfold kept. cbn [andb negb]. induction K as [|a K IH]; cbn [filter]; [reflexivity | rewrite IH; reflexivity]. Qed.
+
+  (* values never decrease along the range *)
+  Theorem range_non_decreasing : forall sort (l : cplx V), sorts sort ->
+    StronglySorted (fun a b => vlt (snd b) (snd a) = false) (sort l).
+  Proof.
+    intros sort l S. destruct (S l) as [A _]. unfold sorted in A.
+    induction A as [|a m A IH F]; constructor; [exact IH|].
+    eapply Forall_impl; [|exact F]. intros b Hb. unfold fle in Hb. apply negb_true_iff in Hb.
+    destruct (vlt (snd b) (snd a)) eqn:E; [|reflexivity].
+    assert (X : is_before vlt b a = true) by (apply (is_before_cases V vlt); left; exact E). congruence.
+  Qed.
+
+  (* faces first: in a monotone filtration no simplex comes before one of its proper faces *)
+  Theorem range_faces_first : forall sort (K : cplx V), sorts sort -> wf K -> monotone vlt K ->
+    forall l1 a l2 b, sort K = l1 ++ a :: l2 -> In b l2 -> ~ (subseq (fst b) (fst a) /\ fst b <> fst a).
+  Proof.
+    intros sort K S [N W] M l1 a l2 b E Ib [Hs Hn]. destruct (S K) as [A P].
+    assert (Ia' : In a K) by (eapply Permutation_in; [exact P | rewrite E; apply in_or_app; right; left; reflexivity]).
+    assert (Ib' : In b K) by (eapply Permutation_in; [exact P | rewrite E; apply in_or_app; right; right; exact Ib]).
+    unfold sorted in A. rewrite E in A.
+    assert (L : fle vlt a b = true).
+    { clear - A Ib. induction l1 as [|c l1 IH]; cbn [app] in A; inversion A as [|? ? A' F]; subst; [|auto].
+      rewrite Forall_forall in F. apply F. exact Ib. }
+    unfold fle in L. apply negb_true_iff in L.
+    assert (X : is_before vlt b a = true).
+    { apply (is_before_cases V vlt). destruct a as [sa va], b as [sb vb]. cbn [fst snd] in *.
+      assert (Mab : vlt va vb = false) by (eapply M; [apply in_lookup; eassumption | apply in_lookup; eassumption | exact Hs]).
+      destruct (vlt vb va) eqn:Eb; [left; reflexivity | right]. repeat split; try assumption.
+      apply face_revlex; [|exact Hs | exact Hn]. apply W. apply in_map_iff. exists (sa, va). auto. }
+    congruence.
+  Qed.
+End Range.
